@@ -109,6 +109,34 @@ def extract (H : Bytes → Bytes) : Nat → Nat → List Bool → List Bytes →
         | some (r, mr, bits, hs) => some (H (l ++ r), ml ++ mr, bits, hs)
       else some (H (l ++ l), ml, bits, hs)
 
+/-- the byte strings hashed when computing CalcHash of a segment (one per inner node of the block's tree) -/
+def calcPre (H : Bytes → Bytes) : Nat → List Bytes → List Bytes
+  | 0, _ => []
+  | h + 1, seg =>
+    let l := calcHash H h (seg.take (2 ^ h))
+    if seg.length > 2 ^ h then
+      (l ++ calcHash H h (seg.drop (2 ^ h))) :: (calcPre H h (seg.take (2 ^ h)) ++ calcPre H h (seg.drop (2 ^ h)))
+    else (l ++ l) :: calcPre H h (seg.take (2 ^ h))
+
+/-- the byte strings hashed while parsing a partial tree (one per expanded inner node of the proof) -/
+def extractPre (H : Bytes → Bytes) : Nat → Nat → List Bool → List Bytes → List Bytes
+  | h + 1, n, true :: bits, hs =>
+    match extract H h (min n (2 ^ h)) bits hs with
+    | none => []
+    | some (l, _, bits1, hs1) =>
+      if n > 2 ^ h then
+        match extract H h (n - 2 ^ h) bits1 hs1 with
+        | none => extractPre H h (min n (2 ^ h)) bits hs
+        | some (r, _, _, _) =>
+          (l ++ r) :: (extractPre H h (min n (2 ^ h)) bits hs ++ extractPre H h (n - 2 ^ h) bits1 hs1)
+      else (l ++ l) :: extractPre H h (min n (2 ^ h)) bits hs
+  | _, _, _, _ => []
+
+/-- a hash collision *exhibited* between two given finite lists of byte strings (never an existence claim over
+    all strings, which would be vacuous for a hash with bounded output) -/
+def CollisionBetween (H : Bytes → Bytes) (A B : List Bytes) : Prop :=
+  ∃ a ∈ A, ∃ b ∈ B, a ≠ b ∧ H a = H b
+
 /-- parsing a whole partial tree: all hashes consumed, remaining bits are padding zeros -/
 def extractProof (H : Bytes → Bytes) (total : Nat) (bits : List Bool) (hashes : List Bytes) :
     Option (Bytes × List Bytes) :=
